@@ -385,6 +385,9 @@ func c13Steps(c *c13Case) []job.Step {
 		job.Step{Kind: job.Diff, Dir1: "b", Dir2: "dang", Fmt: "txt"},
 		job.Step{Kind: job.Diff, Dir1: "dang", Dir2: "b", Fmt: "md"},
 		job.Step{Kind: job.Diff, Dir1: "bf", Dir2: "gone", Fmt: "txt", Stop: true})
+	// last: the faulted directory analysed by an analyzer object that has analysed the fault-free one before
+	// (a long-lived caller); judged like step 1
+	st = append(st, job.Step{Kind: job.List, Dir: "bf", Fmt: "txt", Warm: "b"})
 	return st
 }
 
@@ -531,7 +534,12 @@ func c13Judge(c *c13Case, items []faultItem, steps []job.Step, ev []job.Event) (
 		return "", "" // the base itself does not analyse (e.g. named port towards an IP): nothing to compare
 	}
 	// (a) connections and peers unchanged, stop-on-error off
-	for _, i := range []int{1, 2} {
+	warm := len(steps) - 1
+	listed := []int{1, 2}
+	if steps[warm].Warm != "" {
+		listed = append(listed, warm)
+	}
+	for _, i := range listed {
 		e := &ev[i]
 		if bad(i) {
 			continue
@@ -582,6 +590,11 @@ func c13Judge(c *c13Case, items []faultItem, steps []job.Step, ev []job.Event) (
 		if !it.Scan && !bad(2) {
 			if miss := missingDocs(&ev[2], it, 1); len(miss) > 0 {
 				return "b", fmt.Sprintf("list (ResourceInfos API): %s item %s: no severe entry accounts for %v", it.Kind, it.Path, miss)
+			}
+		}
+		if steps[warm].Warm != "" && !bad(warm) {
+			if miss := missingDocs(&ev[warm], it, 1); len(miss) > 0 {
+				return "b", fmt.Sprintf("list (directory API, analyzer used before on the fault-free directory): %s item %s: no severe entry accounts for %v", it.Kind, it.Path, miss)
 			}
 		}
 	}
